@@ -463,6 +463,10 @@ def _who_stores_face_areas(run, P):
         if not stores:
             continue
         key = f.key if f.key in FACE_AREA_WRITERS else next((k for k in FACE_AREA_WRITERS if f.key.startswith(k)), None)
+        if key is None and f.name.startswith("_") and f.name in (getattr(f.module, "normalised", {}) or {}).get("inlined_helpers", []):
+            from ..rules.lazy import _has_call_site
+            if not _has_call_site(P, f):
+                continue      # a private helper whose body the normaliser has put into its only caller(s): judged there
         for st in stores:
             n += 1
             c = f"{f.key}:store[face_areas]"
@@ -472,11 +476,20 @@ def _who_stores_face_areas(run, P):
                     # areaCell / areaTriangle belong to the sphere of radius `sphere_radius` (global attribute): unit-sphere areas need the division by its square
                     defs_ = LocalDefs(f.node)
                     nodes_, _ = defs_.closure(st.value)
-                    divs = [x for e in nodes_ for x in ast.walk(e) if isinstance(x, ast.BinOp) and isinstance(x.op, ast.Div)]
-                    divs += [ast.BinOp(left=a.target, op=ast.Div(), right=a.value) for a in ast.walk(f.node) if isinstance(a, ast.AugAssign) and isinstance(a.op, ast.Div)]
+                    divs = [(x, defs_) for e in nodes_ for x in ast.walk(e) if isinstance(x, ast.BinOp) and isinstance(x.op, ast.Div)]
+                    divs += [(ast.BinOp(left=a.target, op=ast.Div(), right=a.value), defs_) for a in ast.walk(f.node) if isinstance(a, ast.AugAssign) and isinstance(a.op, ast.Div)]
+                    # ... or in a helper of the module the stored value is passed through
+                    from ..loader import FuncInfo as _FI
+                    for e in nodes_:
+                        for cl in ast.walk(e):
+                            if isinstance(cl, ast.Call):
+                                t_ = P.resolve_expr(f.module, cl.func, f)
+                                if isinstance(t_, _FI) and t_.module is f.module:
+                                    hd = LocalDefs(t_.node)
+                                    divs += [(x, hd) for x in ast.walk(t_.node) if isinstance(x, ast.BinOp) and isinstance(x.op, ast.Div)]
                     ok_ = False
-                    for d_ in divs:
-                        den, _n = defs_.closure(d_.right)
+                    for d_, dd_ in divs:
+                        den, _n = dd_.closure(d_.right)
                         mentions = any(isinstance(x, ast.Constant) and x.value == "sphere_radius" for e in den for x in ast.walk(e)) or any(isinstance(x, ast.Attribute) and x.attr == "sphere_radius" for e in den for x in ast.walk(e))
                         squared = any((isinstance(x, ast.BinOp) and isinstance(x.op, ast.Pow) and isinstance(x.right, ast.Constant) and x.right.value == 2) or
                                       (isinstance(x, ast.BinOp) and isinstance(x.op, ast.Mult) and norm(x.left) == norm(x.right)) or
